@@ -724,6 +724,7 @@ type docSpec struct {
 	// History, if not empty, asks for a file with incremental updates rendered
 	// by harness/indep/ser (see historyDoc) instead of a Writer-made document.
 	History string `json:"history,omitempty"`
+	// Special "bigobjstm": one object stream of 160 members (see bigObjStmDoc).
 	// Special "boundary": objects over 1 kB whose #xx name escapes and `stream`
 	// keywords lie around the end of the scanner's 1024-byte buffer (see boundaryDoc).
 	Special string `json:"special,omitempty"`
@@ -743,7 +744,8 @@ func docSpecs(ctx *core.Ctx) []docSpec {
 	specs = append(specs,
 		docSpec{Seed: s + 20, Name: "history-table-table", History: "table-table"},
 		docSpec{Seed: s + 21, Name: "history-stream-stream-stream", History: "stream-stream-stream"},
-		docSpec{Seed: s + 30, Name: "buffer-boundary", Special: "boundary"})
+		docSpec{Seed: s + 30, Name: "buffer-boundary", Special: "boundary"},
+		docSpec{Seed: s + 31, Name: "big-object-stream", Special: "bigobjstm"})
 	if ctx.Thorough() {
 		specs = append(specs,
 			docSpec{Seed: s + 22, Name: "history-table-table-table", History: "table-table-table"},
@@ -770,6 +772,10 @@ func writeSpecs(ctx *core.Ctx) []docSpec {
 		{s + 2, shared.DocOptions{Version: pdf.V1_4, Seekable: false, Objects: 16, MinStreams: 3, Bodies: big, Info: true}, "w-table-nonseekable", "", ""},
 		{s + 3, shared.DocOptions{Version: pdf.V1_7, XRefStream: true, ObjStm: true, Seekable: true, Objects: 20, MinStreams: 3, Bodies: big, Filters: []string{"ASCIIHex", "Flate"}}, "w-xrefstream-objstm-seekable", "", ""},
 		{s + 4, shared.DocOptions{Version: pdf.V1_6, Encrypt: true, Seekable: false, Objects: 14, MinStreams: 3, Bodies: big, Filters: []string{"ASCII85"}, Info: true}, "w-aes128-nonseekable", "", ""},
+		// compressing filters whose output is over 1 kB (incompressible bodies): Placeholder.Set and the
+		// `endstream` write happen inside the Close of the encoder chain
+		{s + 11, shared.DocOptions{Version: pdf.V1_4, Seekable: true, Objects: 12, MinStreams: 4, Bodies: []shared.BodyKind{shared.BodyBigBinary}, Filters: []string{"Flate", "LZW"}, AlwaysFilter: true, Info: true}, "w-table-seekable-flate-lzw", "", ""},
+		{s + 12, shared.DocOptions{Version: pdf.V1_7, XRefStream: true, Seekable: false, Objects: 12, MinStreams: 4, Bodies: []shared.BodyKind{shared.BodyBigBinary}, Filters: []string{"LZW", "Flate"}, AlwaysFilter: true}, "w-xrefstream-nonseekable-flate-lzw", "", ""},
 		// read-write-seek sinks: Writer.Get of earlier objects between the Puts, OpenStream with an indirect /Filter
 		{s + 9, shared.DocOptions{Version: pdf.V1_4, Seekable: true, ReadBack: true, Objects: 16, MinStreams: 4, Bodies: []shared.BodyKind{shared.BodyBig, shared.BodyPlain}, Info: true}, "w-table-readback", "", ""},
 		{s + 10, shared.DocOptions{Version: pdf.V1_7, XRefStream: true, ObjStm: true, Seekable: true, ReadBack: true, Objects: 18, MinStreams: 3, Bodies: []shared.BodyKind{shared.BodyBig, shared.BodyEOL}}, "w-xrefstream-objstm-readback", "", ""},
@@ -862,7 +868,12 @@ func run(ctx *core.Ctx) error {
 		}
 		specs = append(specs, sp)
 		nr := 0
-		for _, mode := range []pdf.ReaderErrorHandling{pdf.ErrorHandlingRecover, pdf.ErrorHandlingReport, pdf.ErrorHandlingStop} {
+		modes := []pdf.ReaderErrorHandling{pdf.ErrorHandlingRecover, pdf.ErrorHandlingReport, pdf.ErrorHandlingStop}
+		if sp.Special != "" {
+			// these documents are about Get and the scan, not about NewReader's policy
+			modes = []pdf.ReaderErrorHandling{pdf.ErrorHandlingRecover, pdf.ErrorHandlingStop}
+		}
+		for _, mode := range modes {
 			rr, n, err := enumerateRead(ctx, sp, di, doc, mode, st)
 			if err != nil {
 				return err
@@ -870,7 +881,7 @@ func run(ctx *core.Ctx) error {
 			nr += n
 			runs = append(runs, rr...)
 		}
-		ctx.Logf("%s (seed %d): %d bytes; %d ReadAt calls over the three modes; all positions x {failFrom, failOnly} x {no data, half, all but the last 16/64/256 bytes, exactly 1..8/19/20/21 bytes}", sp.Name, sp.Seed, len(doc.Bytes), nr)
+		ctx.Logf("%s (seed %d): %d bytes; %d ReadAt calls over the modes; all positions x {failFrom, failOnly} x {no data, half, all but the last 16/64/256 bytes, exactly 1..8/19/20/21 bytes}", sp.Name, sp.Seed, len(doc.Bytes), nr)
 	}
 	for _, sp := range writeSpecs(ctx) {
 		di := len(specs)
